@@ -142,6 +142,7 @@ func cmdCheck(args []string) {
 		addAnon(f, sweepSet[funcKey(f)])
 	}
 	V.SweepSet = sweepSet
+	V.PropID = spec.ID
 	V.AssumeFrames = spec.AssumeFrames
 	V.IgnoreKinds = map[string]bool{}
 	for _, k := range spec.IgnoreKinds {
@@ -261,6 +262,9 @@ func cmdCheck(args []string) {
 		if !verifiedSet[k] {
 			trusted = append(trusted, "contract of a repository or dependency function applied at a call site but not verified by THIS check (verified under another property, or assumed): "+k)
 		}
+	}
+	for k := range V.ForeignClauses {
+		trusted = append(trusted, "clauses of another property's contract on a function this check also verifies: used (as postconditions at call sites, as loop invariants), proved by that property's check, not by this one: "+k)
 	}
 	for k := range V.FrameAssumed {
 		trusted = append(trusted, "frame assumed (assume_frames): the callee writes no memory that existed before the call: "+k)
